@@ -46,7 +46,8 @@ META = {
                 'SQLite executes the logged INSERT/UPDATE/DELETE statements as written'],
     'modelled': ['validation is abstracted to {int, None, rejected value} on IntCol columns',
                  'classes without joins/dependents (destroySelf cascade paths belong to C12/C06)',
-                 'listeners that raise are outside the model'],
+                 'listeners that raise are outside the model; the clean-up of the thread-local postponed list when a '
+                 'create-finished listener or callback raises is checked by a directed oracle scenario only'],
     'assumptions': ['operations address objects created in the same history (handles); listeners are of the four '
                     'modelled kinds (observe / kwargs[k]=v / kwargs.pop(k) / post_funcs.append)'],
     'exhaustive': False,
@@ -481,8 +482,10 @@ def oracle_plain(ctx, case, results):
                     want = [cols.get(c, before[oid][c]) for c in range(NCOLS)]
                     if after.get(oid) != want:
                         fail(kind, 'stored', 'row %s, rewritten kwargs give %s' % (after.get(oid), want), n)
-            elif lazy and r['out'] == 'TypeError' and not any(v == BAD for v in cols.values()):
-                pend[h].update(cols)      # the column values were already taken over
+            elif after != before:
+                fail(kind, 'stored', 'a failed update changed the table', n)
+            # a failed lazy set() leaves nothing pending (unknown keywords are refused before the
+            # values are taken over, fix bf075e4): the next sync must not write them (checked there)
         elif k in ('Y', 'N'):
             if r['out'] == 'ok':
                 if pend[h]:
@@ -753,9 +756,69 @@ def run_case(ctx, case, model_out):
         oracle_chain(ctx, case, out)
 
 
+def raising_listener_case(variant, ncreates=3):
+    """Directed scenario (oracle only; listeners that raise are outside the Lean model, which takes the
+    thread-local postponed list to be gone whenever a constructor has returned or raised): a
+    RowCreatedSignal listener (variant 'listener') or a callback it appends (variant 'post') raises on its
+    first call.  The first create propagates the exception; every later successful create must still
+    deliver RowCreatedSignal exactly once, after its INSERT.  Returns (ok, text)."""
+    e = env()
+    renew_conn()
+    conn = e['conn']
+    events = e['events']
+    cls = make_class(False)
+    sink = []
+    state = {'raised': False}
+
+    def boom():
+        if not state['raised']:
+            state['raised'] = True
+            raise RuntimeError('listener failure injected by the harness')
+
+    def created(inst, kw, post_funcs):
+        sink.append('eC0@%s~' % inst.__dict__.get('id'))
+        if variant == 'listener':
+            boom()
+        else:
+            post_funcs.append(lambda i: boom())
+    events.listen(created, cls, e['sigmap']['C'])
+    problems = []
+    text = []
+    conn.verif_sink = sink
+    try:
+        for n in range(ncreates):
+            del sink[:]
+            try:
+                cls(c0=n)
+                out = 'ok'
+            except RuntimeError:
+                out = 'RuntimeError'
+            except Exception as ex:
+                out = exc_out(ex)
+            ent = [x if isinstance(x, str) else fmt_plain_sql(x[1], x[2]) for x in sink]
+            text.append('%s %s' % (out, ' '.join(ent) or '-'))
+            ins = [i for i, x in enumerate(ent) if x.startswith('I')]
+            evs = [i for i, x in enumerate(ent) if x.startswith('eC')]
+            want_out = 'RuntimeError' if n == 0 else 'ok'
+            if out != want_out or len(ins) != 1 or len(evs) != 1 or evs[0] < ins[0]:
+                problems.append('create %d: %s %s' % (n, out, ent))
+    finally:
+        conn.verif_sink = None
+    return (not problems), 'variant %s: %s%s' % (variant, ' ; '.join(text),
+                                                 (' | PROBLEMS: ' + '; '.join(problems)) if problems else '')
+
+
 def run(ctx):
     env()
     rng = ctx.rng
+    for variant in ('listener', 'post'):
+        ok, text = raising_listener_case(variant)
+        ctx.case('raising-' + variant, nontrivial=True, sample={'case': 'raising created-' + variant, 'impl': text[:300]},
+                 kind='raising-listener')
+        if not ok:
+            ctx.oracle_fail('C19:create-after-raising-listener:after-once',
+                            'after a create-finished %s raised once, later creates do not deliver RowCreatedSignal once '
+                            'after their INSERT: %s' % (variant, text), {'kind': 'R', 'variant': variant})
     cases = corpus_cases()
     cases += list(exhaustive_chain_orders())
     nplain = ctx.budget(1800, 5000)     # per-case cost grows with the number of classes ever created
@@ -772,6 +835,8 @@ def run(ctx):
 
 def replay(case):
     env()
+    if case.get('kind') == 'R':
+        return raising_listener_case(case['variant'])
     case = norm_case(case)
 
     class Ctx:
